@@ -479,7 +479,7 @@ pub fn c02_inherent_edge_list_n3() {
 }
 
 // AdjacencyList incl. the threaded degree_sequence with 2 worker threads.
-// @verif prop=C02 tier=quick fl=f2 role=inherent/adjacency-list t=1500 mem=14
+// @verif prop=C02 tier=quick fl=f2 role=inherent/adjacency-list t=1500 mem=14 par=2
 #[cfg_attr(kani, kani::proof)]
 #[cfg_attr(kani, kani::unwind(8))]
 pub fn c02_inherent_adjacency_list_n3_t2() {
